@@ -229,6 +229,13 @@ def main(tier="quick"):
                 seen.add(q)
                 cases.append(Case(pid, backend, q, argscope.extra_metadata(q) + md, {"source": "argscope"}))
                 pid += 1
+        # one collection bound to a lambda parameter and used at several loop depths of the next step
+        from mc.lang import seqparam
+        for ctx, q in seqparam.queries(backend):
+            if q not in seen:
+                seen.add(q)
+                cases.append(Case(pid, backend, q, md, {"source": "seqparam"}))
+                pid += 1
         # nested lambdas that re-use ONE parameter name (the inner shadows the outer) with a later use of the outer parameter
         from mc.checks import c08
         for q in c08.shadow_family(backend):
